@@ -1589,11 +1589,17 @@ int32_t tls13ParseServerName(ssl_t *ssl,
             psTraceErrr("Out of mem\n");
             goto out_internal_error;
         }
-        psParseBufCopyN(pb,
+        copiedLen = hostNameLen; /* in: room in the target, out: copied */
+        rc = psParseBufCopyN(pb,
                 hostNameLen,
                 (unsigned char*)ssl->expectedName,
                 &copiedLen);
-        (void)copiedLen;
+        if (rc != PS_SUCCESS || copiedLen != hostNameLen)
+        {
+            psFree(ssl->expectedName, ssl->sPool);
+            ssl->expectedName = NULL;
+            goto out_illegal_parameter;
+        }
         ssl->expectedName[hostNameLen] = '\0';
         psTracePrintServerName(INDENT_EXTENSION,
                 "HostName",
